@@ -143,6 +143,15 @@ def gen_steps():
             steps.append("Unknown")
     if not steps:
         steps = ["Unknown"]
+    # frame condition: the counter is touched nowhere else (its definition and the accesses inside the drawing
+    # function are all the mentions there are in the crate); any other mention is an access the model does not know
+    import glob as _glob
+    mentions = 0
+    for fn in _glob.glob(os.path.join(REPO, "src", "**", "*.rs"), recursive=True):
+        mentions += len(re.findall(r"\bGLOBAL_MODULES_GENERATION\b", strip_comments(open(fn).read())))
+    inside = len(re.findall(r"\bGLOBAL_MODULES_GENERATION\b", body))
+    if mentions != inside + 1:
+        steps.append("Unknown")
     return width, init, steps
 
 def fn_body(src, header_re):
